@@ -25,7 +25,7 @@ def run(tier, argv):
         k = 0
         with open(cases, "w") as f:
             for l in vlib.tagged_file(raw, "@@CASE"):
-                if json.loads(l)["want"] == "accept":
+                if json.loads(l)["want"] in ("accept", "unspec"):      # unspec: whether Check accepts is another property's; if it does, the example must be valid
                     f.write(l + "\n")
                     k += 1
         if k == 0:
